@@ -10,6 +10,7 @@ package main
 // (token grammar: lean/Driver/OpsIO.lean)
 
 import (
+	"math/big"
 	"bufio"
 	"bytes"
 	"errors"
@@ -453,11 +454,33 @@ func genC13(g *Gen, tier string, w *bufio.Writer) {
 	// ---- whole values: every failure position x schedules ----
 	nv := tierN(tier, 110, 1200)
 	maxLen := tierN(tier, 90, 260)
-	for i := 0; i < nv; i++ {
+	// degenerate values first: series whose variable-size elements are all empty (nothing is
+	// written after the offset table), empty outer series, all-default containers
+	u16 := &Ty{Kind: KUint, N: 2}
+	lu := &Ty{Kind: KList, N: 4, Elem: u16}
+	emptyL := &Val{Kind: VSeq, Seq: []*Val{}}
+	type tv struct {
+		t *Ty
+		v *Val
+	}
+	fixedCases := []tv{
+		{&Ty{Kind: KList, N: 8, Elem: lu}, &Val{Kind: VSeq, Seq: []*Val{emptyL, emptyL, emptyL}}},
+		{&Ty{Kind: KList, N: 8, Elem: lu}, &Val{Kind: VSeq, Seq: []*Val{emptyL}}},
+		{&Ty{Kind: KVector, N: 2, Elem: lu}, &Val{Kind: VSeq, Seq: []*Val{emptyL, emptyL}}},
+		{&Ty{Kind: KContainer, Fields: []*Ty{lu, lu, u16}}, &Val{Kind: VSeq, Seq: []*Val{emptyL, emptyL, {Kind: VNum, Num: bigOne()}}}},
+		{&Ty{Kind: KList, N: 8, Elem: lu}, emptyL},
+		{&Ty{Kind: KList, N: 1 << 40, Elem: &Ty{Kind: KList, N: 1 << 40, Elem: lu}}, &Val{Kind: VSeq, Seq: []*Val{{Kind: VSeq, Seq: []*Val{emptyL, emptyL}}, emptyL}}},
+	}
+	for i := 0; i < nv+len(fixedCases); i++ {
 		var t *Ty
 		var v *Val
 		var bs []byte
 		for {
+			if i < len(fixedCases) {
+				t, v = fixedCases[i].t, fixedCases[i].v
+				bs = refSer(t, v)
+				break
+			}
 			t = g.RandTy(g.Intn(4), o)
 			v = g.RandVal(t, 24)
 			bs = refSer(t, v)
@@ -608,3 +631,5 @@ func genC13(g *Gen, tier string, w *bufio.Writer) {
 		}
 	}
 }
+
+func bigOne() *big.Int { return big.NewInt(1) }
